@@ -90,6 +90,7 @@ class Job:
         self.no_default_checks = no_default_checks
         self.auto_check_files = auto_check_files   # basenames: instrumented (non-user) checks count only in these files
         self.ignore_desc = list(ignore_desc)
+        self.validate_witness = False      # force the native re-run of this job's witness trace (see run_check)
         self.witnesses = list(witnesses)   # regexes: each must match a WITNESS assertion reported FAILED
         self.expect_fail = list(expect_fail)   # regexes of descriptions expected to FAIL (treated like witnesses)
 
@@ -533,8 +534,9 @@ def run_check(prop, tier, seed, make_jobs, level, meta):
         # assertion or assumption: CBMC's reading of the code and the compiled code agree on that path.
         wt_ok, wt_bad = [], []
         cand = sorted([r for r in results if r.status == 'ok' and r.job.replay and r.witness_props], key=lambda r: r.wall)
-        for r in cand[:(2 if tier == 'quick' else 6)]:
-            ends = [x for x in r.witness_props if re.search(r'end', x[1])] or r.witness_props
+        forced = [r for r in cand if r.job.validate_witness]
+        for r in forced + [r for r in cand if not r.job.validate_witness][:(2 if tier == 'quick' else 6)]:
+            ends = [x for x in r.witness_props if 'varied' in x[1]] or [x for x in r.witness_props if re.search(r'end', x[1])] or r.witness_props
             wp, wd = ends[-1]
             outdir = os.path.join(ctx.scratch, 'wtrace_' + re.sub(r'[^A-Za-z0-9_.-]', '_', r.job.name))
             try:
@@ -544,6 +546,22 @@ def run_check(prop, tier, seed, make_jobs, level, meta):
             good = info.get('native_rc') == 0 and 'REPLAY-ASSUME-FAIL' not in (info.get('native_out') or '') and 'REPLAY-ASSERT-FAIL' not in (info.get('native_out') or '')
             (wt_ok if good else wt_bad).append({'job': r.job.name, 'witness': wd, 'native_rc': info.get('native_rc'), 'note': (info.get('note') or info.get('native_out') or '')[-200:]})
             r.replays.append({'confirmed': bool(good), 'witness': True})
+            if info.get('native_rc') == 1 and 'REPLAY-ASSERT-FAIL' in (info.get('native_out') or ''):
+                # the compiled real code fails a property assertion on a concrete input although the solver found no failing
+                # input: CBMC's reading of the C text and the compiler's differ (undefined behaviour in the code under test,
+                # e.g. a call through an incompatible function type).  A concrete failing run of the real code is a violation.
+                am = re.search(r'REPLAY-ASSERT-FAIL: ([^\n]*)', info.get('native_out') or '')
+                keep = os.path.join(replay_root, re.sub(r'[^A-Za-z0-9_.-]', '_', r.job.name) + '_native')
+                shutil.rmtree(keep, ignore_errors=True)
+                try:
+                    shutil.copytree(outdir, keep)
+                except Exception:
+                    os.makedirs(keep, exist_ok=True)
+                r.status = 'violation'
+                r.failed = [('native', am.group(1) if am else 'native assertion failure')]
+                violations += 1
+                log('VIOLATION property=%s replay=%s job=%s assertion="%s" (native run of the compiled real code on the solver\'s witness input fails, '
+                    'while the solver finds no failing input: the code relies on behaviour the C standard leaves undefined)' % (prop, keep, r.job.name, am.group(1) if am else ''))
         aux = dict(aux or {})
         aux['witness_traces_replayed_natively_ok'] = len(wt_ok)
         if wt_bad:
